@@ -10,6 +10,7 @@ import (
 	"encoding/asn1"
 	"fmt"
 	"math/big"
+	"math/rand/v2"
 	"strings"
 	"sync"
 	"time"
@@ -502,6 +503,46 @@ func sharedValidator(p purpose.Purpose) revocation.Validator {
 	}
 	vals[p] = v
 	return v
+}
+
+// RandomChain draws a chain carrying 1..3 applicable catalogue items (for
+// checks that only need hostile certificate shapes, not this check's verdicts).
+func RandomChain(rng *rand.Rand) ([][]byte, string) {
+	for try := 0; try < 20; try++ {
+		c := &Case{TS: rng.IntN(2) == 0, Len: 1 + rng.IntN(4), KeyMix: rng.IntN(4), TimeOf: -1}
+		for k := 1 + rng.IntN(3); k > 0; k-- {
+			pos := rng.IntN(c.Len)
+			var ok []string
+			for _, it := range catalogue {
+				if it.applies(pos, c.Len, c.TS) {
+					ok = append(ok, fmt.Sprintf("%s@%d", it.name, pos))
+				}
+			}
+			if len(ok) > 0 {
+				c.Items = append(c.Items, ok[rng.IntN(len(ok))])
+			}
+		}
+		var certs []*x509.Certificate
+		var err error
+		func() {
+			// several re-arranging items at once can index past a shortened chain
+			defer func() {
+				if recover() != nil {
+					certs = nil
+				}
+			}()
+			certs, _, err = c.build()
+		}()
+		if err != nil || len(certs) == 0 {
+			continue
+		}
+		out := make([][]byte, len(certs))
+		for i, x := range certs {
+			out[i] = x.Raw
+		}
+		return out, c.desc()
+	}
+	return nil, "no catalogue chain could be built"
 }
 
 func run(r *core.Run, ts bool) int {
